@@ -64,6 +64,10 @@ impl ECDSA {
         let mut added_entropy = FieldBytes::default();
         let rng = &mut OsRng;
         rng.fill_bytes(&mut added_entropy);
+        #[cfg(feature = "verif-hooks")]
+        if let Some(bytes) = crate::verif_hooks::take_entropy() {
+            added_entropy.copy_from_slice(&bytes);
+        }
 
         let priv_scalar = priv_key.to_nonzero_scalar();
         let k_digest = match reverse_endian_k {
